@@ -1,4 +1,5 @@
 import Qats.Prelude
+import Qats.Gen.Formulas
 /-
 Model of the two numeric stages of `TimeSeries.get` that are written in qats itself (`qats/signal.py`):
 
@@ -10,7 +11,9 @@ Model of the two numeric stages of `TimeSeries.get` that are written in qats its
 Assumed library behaviour (numpy): `np.convolve(a, v, 'same')` with `len(a) ≤ len(v)` is the slice
 `full[(len(a)−1)/2 : (len(a)−1)/2 + len(v)]` of the full convolution `full[k] = Σ_j a[j]·v[k−j]`; Python slices clamp to the
 array bounds (`x[W:1:-1]` starts at `min(W, n−1)`); the window weights `w` (`np.ones`, `np.hanning`, …) are a parameter of the
-model (rectangular: `List.replicate W 1`).  Core Lean only; executed at `Float` against the real functions.
+model (rectangular: `List.replicate W 1`).  The two cosine flanks of the Tukey window are the formulas `tk_rise` / `tk_fall`
+regenerated from the source of `taper` on every run (`Qats/Gen/Formulas.lean`); the three index conditions are written here.
+Core Lean only; executed at `Float` against the real functions.
 -/
 namespace Qats.Smooth
 
@@ -69,11 +72,9 @@ def tukeyWeight (alpha : α) (n i : Nat) : α :=
   let N : α := (Nat.cast n : α)
   let I : α := (Nat.cast i : α)
   let w0 : α := 0
-  let w1 : α := if I < alpha * N / 2 then (0.5 : α) * (1 + TranscOps.cos (TranscOps.pi * (2 * I / (alpha * N) - 1))) else w0
+  let w1 : α := if I < alpha * N / 2 then Qats.Gen.tk_rise alpha I N else w0
   let w2 : α := if alpha * N / 2 ≤ I ∧ I ≤ N * (1 - alpha / 2) then 1 else w1
-  if N * (1 - alpha / 2) < I ∧ I ≤ N then
-    (0.5 : α) * (1 + TranscOps.cos (TranscOps.pi * (2 * I / (alpha * N) - 2 / alpha + 1)))
-  else w2
+  if N * (1 - alpha / 2) < I ∧ I ≤ N then Qats.Gen.tk_fall alpha I N else w2
 
 def tukey (alpha : α) (n : Nat) : List α := (List.range n).map (tukeyWeight alpha n)
 
